@@ -125,7 +125,58 @@ def analyse_entry(spec):
     }
 
 
+def progress_rule(chk, W):
+    """R10.3 every loop of the DER layer (the only loops of the decoder cones outside the
+    number-theory arithmetic) makes progress: `while <buffer>:` loops re-slice the buffer by an
+    amount proven >= 1 in every iteration; `while True:` readers advance an index by a positive
+    constant in every iteration and leave by raise/break when the index reaches the buffer end."""
+    import ast
+    from sa.model import norm_text
+    p = W.p
+    m = p.modules["der"]
+    nloops = 0
+    for f in m.funcs.values():
+        if not f.qual.startswith(("remove_", "read_")):
+            continue
+        for loop in [n for n in ast.walk(f.node) if isinstance(n, ast.While)]:
+            nloops += 1
+            ok = False
+            why = "no progress argument recognised"
+            if isinstance(loop.test, ast.Name):
+                v = loop.test.id
+                res = [s_ for s_ in loop.body if isinstance(s_, ast.Assign) and isinstance(s_.targets[0], ast.Name) and s_.targets[0].id == v and isinstance(s_.value, ast.Subscript)
+                       and isinstance(s_.value.value, ast.Name) and s_.value.value.id == v and isinstance(s_.value.slice, ast.Slice) and s_.value.slice.upper is None and s_.value.slice.lower is not None]
+                if len(res) == 1 and not any(isinstance(x, ast.Continue) for x in ast.walk(loop)):
+                    it = W.interp()
+                    it.entry_merge_limit = None
+                    it.watch.add(id(res[0]))
+                    it.analyse(f.qname, [VBytes(("param", "string"))] + ([VInt(0)] if len(f.params) > 1 else []))
+                    sts = it.point_states.get(id(res[0]), [])
+                    amt = res[0].value.slice.lower
+                    ok = bool(sts)
+                    from sa.absint import Ctx
+                    for s_ in sts:
+                        c_ = Ctx(it, f, f.module, None, 1)
+                        vals = it.ev(c_, s_, amt)
+                        ok &= bool(vals) and all(isinstance(vv, VInt) and ss.proves_ge(vv.lin - 1) for vv, ss in vals)
+                    why = "the buffer is re-sliced by an amount not proven >= 1 (%d state(s))" % len(sts)
+            elif isinstance(loop.test, ast.Constant) and loop.test.value is True:
+                incs = [s_ for s_ in loop.body if isinstance(s_, ast.AugAssign) and isinstance(s_.op, ast.Add) and isinstance(s_.value, ast.Constant) and isinstance(s_.value.value, int) and s_.value.value >= 1 and isinstance(s_.target, ast.Name)]
+                if len(incs) == 1:
+                    c = incs[0].target.id
+                    first = loop.body[0]
+                    guard = isinstance(first, ast.If) and isinstance(first.test, ast.Compare) and norm_text(first.test.left) == c and isinstance(first.test.ops[0], (ast.GtE, ast.Gt, ast.Eq)) \
+                        and norm_text(first.test.comparators[0]).startswith("len(") and isinstance(first.body[-1], (ast.Raise, ast.Break, ast.Return))
+                    other = [x for x in ast.walk(loop) if isinstance(x, (ast.Assign, ast.AugAssign)) and x is not incs[0] and any(isinstance(t, ast.Name) and t.id == c for t in ast.walk(x) if isinstance(getattr(t, "ctx", None), ast.Store))]
+                    ok = guard and not other and not any(isinstance(x, ast.Continue) for x in ast.walk(loop))
+                    why = "index loop without `if %s >= len(..): raise` first / with other writes to %s" % (c, c)
+            chk.ob("R10.3", "%s: loop at line %d makes progress and is bounded by the buffer length" % (f.qual, loop.lineno), ok, loc="src/ecdsa/der.py:%d" % loop.lineno, key="C10|R10.3|%s|%s" % (f.qual, norm_text(loop.test)),
+                   detail="%s: %s" % (f.qual, why))
+    chk.floor("R10.3", "loops in the DER readers", nloops, 2)
+
+
 def run(chk):
+    chk.rule("R10.3", "progress of every loop in the DER readers (termination of the decoders up to the number-theory arithmetic)")
     chk.rule("R10.1", "escape set of every decoder entry point (explicit raises + implicit raises of partial primitives + input-dependent asserts over the call cone, minus handlers) is a subset of the documented exception set")
     chk.rule("R10.2", "input-dependent asserts in the cone are entailed at every call context (counted inside R10.1 as AssertionError obligations)")
     specs = []
@@ -164,6 +215,7 @@ def run(chk):
             unexpected = [u for u in r["unknown_calls"] if "hashfunc" not in u and "default_hashfunc" not in u]
             if unexpected:
                 raise AnalysisError("unresolved call inside the C10 cone of %s: %s" % (lab, unexpected[:3]))
+    progress_rule(chk, world("py3"))
     chk.floor("R10.1", "decoder entry points analysed", len(results), 27 * len(chk.configs))
     chk.floor("R10.1", "functions in the union of the cones", len(funcs), 40)
     chk.internal = sorted(internal)
